@@ -420,6 +420,9 @@ class ProgGen:
 
     # ------------------------------------------------------------------ statements
     def new_var(self):
+        if self.r.random() < 0.06:
+            # a top-level binding that shadows a builtin (host bindings override builtins)
+            return self.r.choice(['len', 'sum', 'max', 'min', 'str', 'abs', 'list', 'join'])
         return self.r.choice(VAR_POOL[:11])
 
     def stmt(self, depth=None):
@@ -478,8 +481,10 @@ class ProgGen:
             x = r.random()
             if x < 0.25 and n == 1:
                 # terminating recursion
-                body = ['if', ['num', r.choice(['0', '1'])], ['bin', '<=', ['name', 'n'], ['num', '0']],
-                        ['bin', r.choice(['+', '*', '-']), ['name', 'n'], ['call', v, [['bin', '-', ['name', 'n'], ['num', '1']]], 'plain']]]
+                rc = ['call', v, [['bin', '-', ['name', 'n'], ['num', '1']]], 'plain']
+                opr = r.choice(['+', '*', '-'])
+                step = ['bin', opr, rc, ['name', 'n']] if r.random() < 0.5 else ['bin', opr, ['name', 'n'], rc]
+                body = ['if', ['num', r.choice(['0', '1'])], ['bin', '<=', ['name', 'n'], ['num', '0']], step]
                 lam = ['lambda', ['n'], body]
                 self.kinds.add('recursion')
             else:
